@@ -415,15 +415,6 @@ def r_overrides(ck: Checker) -> None:
                     ks.append(k.value)
                 else:
                     ks.append(None)
-            if None in ks:
-                raise Unsupported("non-constant key in a literal mapping of a __post_serialize__ override", dct)
-            shown = [k if k != "\0" else "TYPE_KEY" for k in ks]
-            if ks != sorted(ks):
-                bad = True
-                ck.violation("R-SORTED-OVERRIDE", f, dct, "a literal mapping written by the override lists the tag first and the other keys sorted",
-                             construct=f"{f.qualname}: literal keys {shown}")
-            else:
-                ck.holds("R-SORTED-OVERRIDE", f, dct, "a literal mapping written by the override lists the tag first and the other keys sorted", keys=shown)
             if "\0" in ks:
                 guarded = False
                 cur: ast.AST = dct
@@ -444,6 +435,17 @@ def r_overrides(ck: Checker) -> None:
                 else:
                     bad = True
                     ck.violation("R-TAG-FIRST", f, dct, what3, construct=f"{f.qualname}: literal mapping with a type tag is not guarded by `not SKIP_CLASS`")
+            if None in ks:
+                if bad:
+                    continue
+                raise Unsupported("non-constant key in a literal mapping of a __post_serialize__ override", dct)
+            shown = [k if k != "\0" else "TYPE_KEY" for k in ks]
+            if ks != sorted(ks):
+                bad = True
+                ck.violation("R-SORTED-OVERRIDE", f, dct, "a literal mapping written by the override lists the tag first and the other keys sorted",
+                             construct=f"{f.qualname}: literal keys {shown}")
+            else:
+                ck.holds("R-SORTED-OVERRIDE", f, dct, "a literal mapping written by the override lists the tag first and the other keys sorted", keys=shown)
         if not bad:
             ck.holds("R-SORTED-OVERRIDE", f, fn, what2)
     if n < 2:
